@@ -1,6 +1,6 @@
 (* C11 -- Macro invocation equals substitution (table algebra full, substitution partial).  Property theorems only. *)
 From Rimu Require Import Base Unicode Regex RegexAnalysis RegexParse Str Types Tables Guards State Inline Block
-  Frame FrameBlock FrameInst OptionsLemmas MiscLemmas MoreLemmas Plain TableFacts MatchExact MacroSubst.
+  Frame FrameBlock FrameInst OptionsLemmas MiscLemmas MoreLemmas Plain TableFacts MatchExact MacroSubst MacroDefine.
 
 (* setValue, when not skipped by the safe mode, is exactly the table function setValue_table and touches nothing protected *)
 Theorem C11_setValue_spec : forall name value s,
@@ -103,4 +103,45 @@ Proof.
   { intros t H1 H2. split; [|exact H2]. intros x Hx. rewrite forallb_forall in H1. auto. }
   repeat split; try (apply Q; vm_compute; reflexivity); try discriminate.
   intros x Hx. vm_compute in Hx. intuition; subst; reflexivity.
+Qed.
+
+(* DEFINITION THEN INVOCATION.  Where definitions are not skipped by the safe mode, setting a macro (name over the generated name
+   alphabet, not the blank macro) succeeds, touches nothing protected, and from then on every simple invocation of it in quiet
+   text is replaced by exactly that value *)
+Theorem C11_define_then_invoke : forall name value s,
+  name_ok name -> name <> $"--" -> setValue_skip (s_mode s) = false ->
+  exists s', macros_setValue name value s = Ok (tt, s') /\ protected s' = protected s /\
+    forall sr pre post silent, quiet pre -> quiet post -> quiet value ->
+      macros_render sr (ienv_of s') (pre ++ 123 :: name ++ 125 :: post) silent = iret (pre ++ value ++ post).
+Proof. exact define_then_invoke. Qed.
+Print Assumptions C11_define_then_invoke.
+
+(* THE DEFINITION LINE, end to end through the block layer: in any document, a first line {name}='value' (value without
+   newline, brace or backslash) renders nothing, and everything after it is rendered in the session that setValue produced --
+   for every name over the name alphabet, every such value, every rest of the document, every session and fuel.  On the way:
+   the comment, block-, quote- and replacement-definition patterns do not match the line, the macro-line pattern matches but its
+   verify() rejects a line that opens a definition, and the macro-definition pattern matches with the name in group 1 and the
+   value in group 2 (unique derivation, exact semantics) *)
+Theorem C11_definition_line : forall fuel doc n name value rest s s',
+  name_ok name -> value_ok value -> quiet value -> macros_setValue name value s = Ok (tt, s') ->
+  doc_loop fuel doc (S n) (def_line name value :: rest) s = doc_loop fuel doc n rest s'.
+Proof. exact def_line_document. Qed.
+Print Assumptions C11_definition_line.
+
+Theorem C11_definition_match : forall name value, name_ok name -> value_ok value ->
+  exists m, re_search mdre (def_line name value) = Some m /\
+            m_groups m = [Some (def_line name value); Some name; Some value].
+Proof. exact md_match. Qed.
+Print Assumptions C11_definition_match.
+
+Example C11_ex_definition :
+  name_ok $"who" /\ value_ok $"the world" /\ quiet $"the world" /\ def_line $"who" $"the world" = $"{who}='the world'" /\
+  match api_render 40 ($"{who}='the world'" ++ [10; 10] ++ $"Hello {who}.") (mkOpts PyNone PyNone PyNone true) S0 with
+  | Ok (html, _) => str_eqb html $"<p>Hello the world.</p>" | _ => false end = true.
+Proof.
+  assert (Q : forall t, forallb no_macro_start t = true -> existsb (N.eqb 2) t = false -> quiet t).
+  { intros t H1 H2. split; [|exact H2]. intros x Hx. rewrite forallb_forall in H1. auto. }
+  repeat split; try (apply Q; vm_compute; reflexivity); try discriminate; try (vm_compute; reflexivity).
+  - intros x Hx. vm_compute in Hx. intuition; subst; reflexivity.
+  - intros x Hx. vm_compute in Hx. intuition; subst; discriminate.
 Qed.
